@@ -146,7 +146,7 @@ Proof.
     destruct (Nat.lt_ge_cases h (g0 + ngroups x)); [eapply Hx; eauto; lia|eapply IH; eauto; lia].
   - cbn [hard] in Hh. cbn [ngroups] in Hr. apply orb_false_iff in Hh as [H1 H2].
     destruct (Nat.eq_dec h g0) as [->|Hne]; [exact H2|]. eapply IHe; eauto. lia.
-  - cbn [hard] in Hh. cbn [ngroups] in Hr. eapply IHe; eauto.
+  - cbn [hard] in Hh. cbn [ngroups] in Hr. apply orb_false_iff in Hh as [Hh _]. eapply IHe; eauto.
 Qed.
 
 (* ---------- delegated blocks ---------- *)
